@@ -27,7 +27,7 @@ CLAIMED = {
    design="6/C03"),
  "C04": dict(
    technique="runtime monitoring: differential reference-model monitor + globals-frame monitor (complete global frame compared after every statement) + caller-frame self-checks executed by the program under test",
-   text="Name-pressure sessions reuse 2..5 names as global/parameter/local/for-variable/captured/inner local across three nesting levels; each function snapshots every visible name before and after each call it makes (any difference prints a DIFF marker), updates captured variables between calls, and lets closures escape directly, in arrays and in arrays of arrays, which are then called after deep recursion overwrote the dead frames; loop bounds are computed from the outer variable that has the loop variable's name; closure-plumbing sessions (hof family) define sibling closures in one call, route them through other functions (returned unchanged, picked, wrapped in a capturing closure, yielded by a generator and returned out of the consuming loop) while the defining call is live and its variables change, let them escape, and call them again after other calls, deep recursion and recycled iterator contexts; all observations are compared with the reference and the whole global frame is compared after every statement.",
+   text="Name-pressure sessions reuse 2..5 names as global/parameter/local/for-variable/captured/inner local across three nesting levels; each function snapshots every visible name before and after each call it makes (any difference prints a DIFF marker), updates captured variables between calls, and lets closures escape directly, in arrays and in arrays of arrays, which are then called after deep recursion overwrote the dead frames; loop bounds are computed from the outer variable that has the loop variable's name; closure-plumbing sessions (hof family) define sibling closures in one call, route them through other functions (returned unchanged, picked, wrapped in a capturing closure, yielded by a generator and returned out of the consuming loop) while the defining call is live and its variables change, let them escape, and call them again after other calls, deep recursion and recycled iterator contexts; parameter lists that repeat a name (every parameter keeps its own slot, the name denotes the later one) followed by locals, closures and loops; all observations are compared with the reference and the whole global frame is compared after every statement.",
    note="Names are declared before any loop of a function body so static and dynamic lookup cannot differ (agreed region rule 1).",
    design="6/C04"),
  "C05": dict(
